@@ -983,6 +983,17 @@ def c18_family(tier):
                                ('stop-evt', {}, {'stop_at': [{'f': 'flt', 'at_ms': 1200}]}, 'clean')]:
             one(f'backend-refuses-{fail[0].lower()}/{nm}', fp, {**ex, 'lineage': {'interval': 1, 'emit_fail': list(fail)}}, kd, 'one')
 
+    # metrics reach the emitter all along (periodic export, names that are not Python identifiers included) and keep coming for a while
+    # after the run has ended (the reader thread outlives it, the provider flushes at shutdown)
+    for tag, facets in [('plain', {'fps': 29.5, 'frames_processed': 7}), ('odd-names', {'fps': 29.5, 'frames.processed': 7, 'type': 1, '3d_points': 2})]:
+        pump = {'every_ms': 300, 'after_end': 2, 'facets': facets}
+
+        for nm, fp, ex, kd in [('exit-process', {'faults': [{'at': 'process', 'k': 12, 'what': 'exit'}]}, {}, 'clean'),
+                               ('raise-process', {'faults': [{'at': 'process', 'k': 12, 'what': 'raise'}]}, {}, 'error'),
+                               ('stop-evt', {}, {'stop_at': [{'f': 'flt', 'at_ms': 1200}]}, 'clean'),
+                               ('exit-process-short', {'faults': [{'at': 'process', 'k': 4, 'what': 'exit'}]}, {}, 'clean')]:
+            one(f'metrics-pump-{tag}/{nm}', fp, {**ex, 'lineage': {'interval': 1, 'pump': pump}}, kd, 'short' if nm.endswith('short') else 'one')
+
     # interrupted runs: KeyboardInterrupt / a foreign sys.exit() out of process() or setup() (run() raises: not a clean end)
     for what in ['interrupt', 'sysexit']:
         one(f'{what}-process', {'faults': [{'at': 'process', 'k': 4, 'what': what}]}, {}, 'error', 'short')
